@@ -134,8 +134,35 @@ def fval(c):
     return np.array([c['b']], dtype=np.uint64).view(np.float64)[0]
 
 
+_HAZ = None
+
+
+def hazard_f32():
+    """float32 values whose shortest decimal text does NOT survive float() (binary64) followed by the cast to float32
+    (double rounding at a float32 midpoint); found by the continued-fraction search, cached per process"""
+    global _HAZ
+    if _HAZ is None:
+        out = {}
+        for q in range(-54, 31):
+            for e in _exps_for(q):
+                alpha = Fraction(10) ** q / Fraction(2) ** (e - 1)
+                for p, k in _convergents(alpha, 10**9):
+                    for mult in range(1, 4):
+                        mm, pp = k * mult, p * mult
+                        if not (10**7 <= mm < 10**9) or pp % 2 == 0 or not (2**24 < pp < 2**25):
+                            continue
+                        for x in _f32_neighbours(Fraction(pp) * Fraction(2) ** (e - 1)):
+                            if np.isfinite(x) and f32bits(np.float32(float(str(x)))) != f32bits(x):
+                                out[f32bits(x)] = x
+        _HAZ = [out[b] for b in sorted(out)] or [np.array([0x15ae43fd], dtype=np.uint32).view(np.float32)[0]]
+    return _HAZ
+
+
 def gen_float(rng, w):
     k = rng.randrange(10)
+    if w == 4 and k == 9 and rng.random() < 0.5:
+        x = rng.choice(hazard_f32())
+        return x if rng.random() < 0.5 else -x
     if w == 4:
         if k == 0:
             return rng.choice([0.0, -0.0, np.inf, -np.inf, np.nan, 1e-45, -1e-45, 3.4028235e38, -3.4028235e38,
